@@ -472,7 +472,7 @@ Section Evolution.
 
   Definition ev_recover (s : ev_st) (h : list hentry) : ev_st :=
     let (s1, ip) := fold_left ev_replay h (s, []) in
-    let reached := match size with Some n => n <=? length ip | None => false end in
+    let reached := match size with Some n => Nat.max n 1 <=? length ip | None => false end in
     mkEv (ev_np s1) (ev_nf s1) (recover gi (ev_in s1) ip)
          (if reached then true else ev_initialized s1) (ev_ngen s1) (ev_g s1) (ev_pop s1) (ev_pending s1).
 
@@ -511,6 +511,15 @@ Fixpoint deterministic (a : alg) : bool :=
   | ARand sd _ => sd
   | ADedup a' _ _ _ _ => deterministic a'
   | AEvo _ _ _ _ => false
+  end.
+
+(* the initial population of the Evolution inside comes from a generator whose proposals are a function of
+   history and seed *)
+Fixpoint init_deterministic (a : alg) : bool :=
+  match a with
+  | ADedup a' _ _ _ _ => init_deterministic a'
+  | AEvo i _ _ _ => deterministic i
+  | _ => false
   end.
 
 (* ---------------------------------------------------------------------------------------------- *)
@@ -570,6 +579,20 @@ Section Run.
         | (Ok d, s') => dval d :: continue_from n' s'
         | (Stop, _) => [(-1)%Z]
         | (Fail c, _) => [(-1 - c)%Z]
+        end
+    end.
+  (* the next (up to n) proposals of the initial-population phase: stops (-9) at the first proposal that is not
+     an initial individual, or that fails — what comes after depends on the (randomised) reproduction *)
+  Fixpoint continue_init (n : nat) (s : st g) : list Z :=
+    match n with
+    | O => []
+    | S n' =>
+        match propose g s with
+        | (Ok d, s') => match dini d with
+                        | Some true => dval d :: continue_init n' s'
+                        | _ => [(-9)%Z]
+                        end
+        | (_, _) => [(-9)%Z]
         end
     end.
 End Run.
@@ -655,6 +678,7 @@ Section Sim.
   Variable g : gen.
   Variable reward_of : Z -> Z.
   Variable det : bool.
+  Variable detinit : bool.
   (* the reward of the oldest in-flight proposal reached the history but feedback() was never called *)
   Definition undelivered (r : run_st g) (next : option Z) : list tr :=
     match next with
@@ -697,7 +721,7 @@ Section Sim.
     let rec := recovered g (r_hist g r) in
     L [e_obs (obs g (r_st g r)); e_obs (obs g rec);
        elist eZ (if det then continue_from g 5 (r_st g r) else []);
-       elist eZ (if det then continue_from g 5 rec else []);
+       elist eZ (if det then continue_from g 5 rec else if detinit then continue_init g 5 rec else []);
        L (undelivered r next);
        L (proposal_time r h0);
        L (in_parts r c)].
@@ -715,7 +739,7 @@ Definition run (c : tr) : tr :=
       match d_alg 20 a, dZ m, dlist dZ rewards, dlist dZ evs with
       | Some a', Some m', Some rw, Some es =>
           let g := denote m' a' in
-          L (sim g (fun v => nth (Z.to_nat v) rw 0) (deterministic a') es (run_init g) [] 0)
+          L (sim g (fun v => nth (Z.to_nat v) rw 0) (deterministic a') (init_deterministic a') es (run_init g) [] 0)
       | _, _, _, _ => ebad
       end
   | _ => ebad
